@@ -8,7 +8,8 @@
 //	            fn 3 t -> (ByteSize LengthBytes reflect-kind name)
 //	            fn 4 (which arg) -> asetime helper result
 //	            fn 9 (day) -> (ticks failures)                      (thorough: all ticks of a day, Go side)
-//	-prop C05:  fn 1 (t len v) -> (enc-outcome ref) with ref = () or (#reference-bytes dec-outcome-of-them)
+//	-prop C05:  fn 1 (t len v ref) -> (enc-outcome dref) with ref = () or (#reference-bytes of the harness' own codec),
+//	            dref = () or the implementation's decode outcome of the reference bytes
 //	            fn 4 (which arg) -> asetime helper result
 package main
 
@@ -76,13 +77,11 @@ func value(t asetypes.DataType, n int, v val, tag string) {
 		out.Case(1, input(t, n, v), sx.L{eo, do}, tag)
 		return
 	}
-	var ref sx.T = sx.L{}
-	if !strings.HasPrefix(tag, "offdomain") {
-		if rb, rok := refEncode(t, n, v); rok {
-			ref = sx.L{sx.B(rb), decode(t, rb)}
-		}
+	var ref, dref sx.T = sx.L{}, sx.L{}
+	if rb, rok := refEncode(t, n, v); rok {
+		ref, dref = sx.L{sx.B(rb)}, decode(t, rb)
 	}
-	out.Case(1, input(t, n, v), sx.L{eo, ref}, tag)
+	out.Case(1, sx.L{sx.I(int64(t)), sx.I(int64(n)), v.tree(), ref}, sx.L{eo, dref}, tag)
 }
 
 // decode-only case (C04 fn 2)
@@ -563,10 +562,10 @@ func genDays() {
 			dv := vTime(y, m, d, 0, 0, 0, 0)
 			nv := vTime(y, m, d, noon[0], noon[1], noon[2], noon[3])
 			value(asetypes.DATE, 4, dv, "date;DATE;midnight")
-			if dense || last {
+			if dense || last && (y%5 == 0 || y%100 == 99 || y%100 == 1) {
 				value(asetypes.DATETIME, 8, nv, "datetime;DATETIME;12:34:56.789")
 			}
-			if dense {
+			if tier == "thorough" || denseYear(y) || d == 1 && y%5 == 0 {
 				value(asetypes.DATETIME, 8, dv, "datetime;DATETIME;midnight")
 			}
 			if dense && d <= 3 || y%97 == 0 && d == 1 {
@@ -579,7 +578,7 @@ func genDays() {
 				helpersOfTime(dv, "helper;day")
 				helpersOfTime(bv, "helper;day-last-microsecond")
 			}
-			if (last || d == 1 || (m == 2 && d >= 28)) && (tier == "thorough" || denseYear(y) || y%10 == 0 || y%100 == 99) {
+			if (last || d == 1 || (m == 2 && d >= 28)) && (tier == "thorough" || denseYear(y) || y%25 == 0 || y%100 == 99) {
 				helpersOfTime(nv, "helper;month-boundary")
 			}
 		}
@@ -623,7 +622,7 @@ func genTicks() {
 		exact := k * 1000 / 300 * 1000 // what a decoder yields for tick k (millisecond truncation)
 		b := cellBoundary(k)
 		for j, us := range []int{exact, b - 1, b} {
-			if us >= 86400000000 {
+			if us >= 86400000000 || (tier != "thorough" && i >= 2000 && j != i%3) {
 				continue
 			}
 			ns := 0
@@ -638,7 +637,7 @@ func genTicks() {
 			if us >= 86399998334 { // rounds up to the tick count of a whole day
 				cls, tcls = "datetime-carry", "time-lastcell"
 			}
-			full := i < 2000 || i%4 == 0
+			full := true
 			value(asetypes.DATETIME, 8, v, cls+";DATETIME;tick;"+d)
 			if i%8 == 0 {
 				value(asetypes.DATETIMEN, 8, v, cls+";DATETIMEN;8;tick;"+d)
@@ -692,7 +691,7 @@ func genTicks() {
 		}
 		value(asetypes.DATETIME, 8, v, cls+";DATETIME;random-microsecond")
 		value(asetypes.BIGDATETIMEN, 8, v, "bigdatetime;random-microsecond")
-		if i%4 == 0 {
+		if i%8 == 0 {
 			value(asetypes.BIGTIMEN, 8, vTime(1, 1, 1, h, mi, s, n), "bigtime;random-microsecond")
 			value(asetypes.BIGTIMEN, 8, v, "bigtime;date-part-ignored")
 			value(asetypes.DATE, 4, v, "date;DATE;with-time-part")
@@ -924,6 +923,9 @@ func writeGen(path string) {
 		fmt.Fprintf(&b, " (%d, (%s, %s, %d, [%s]))%s\n", c, coqZ(t.ByteSize()), coqZ(t.LengthBytes()), k, strings.Join(p, ";"), sep)
 	}
 	b.WriteString("].\n")
+	if old, err := os.ReadFile(path); err == nil && string(old) == b.String() {
+		return // unchanged: keep the time stamp so that the compiled proofs stay up to date
+	}
 	if err := os.WriteFile(path, []byte(b.String()), 0o644); err != nil {
 		fmt.Fprintln(os.Stderr, err)
 		os.Exit(2)
